@@ -71,6 +71,15 @@ def gen_case(rng, algo=None):
         U = [[(v if (v is None or v > 0) else rng.choice([1, 2, 6])) for v in row] for row in U]
     case = {"algo": algo, "K": K, "day": days, "U": U, "now": now, "pre": {"hassel": hassel, "sel": pre_sel, "hasstat": False, "stat": [None] * K},
             "p": {"incl_no_data": inc_nd, "incl_neg": inc_neg}, "sdays": [], "stab": []}
+    # the strategy's own universe: all tickers (no children declared), or the declared
+    # tickers plus one column per declared sub-strategy (ids K+1.., priced at the index 100)
+    case["scope"] = list(range(1, K + 1))
+    case["nsub"] = 0
+    if algo in ("SelectAll", "SelectRandomly") and rng.random() < 0.5:
+        case["scope"] = sorted(rng.sample(range(1, K + 1), rng.randint(0, K)))
+        case["nsub"] = rng.choice([0, 1, 2]) if case["scope"] else rng.choice([1, 2])
+        case["pre"]["hassel"] = False
+        case["pre"]["sel"] = []
     p = case["p"]
     if algo == "SelectThese":
         p["tickers"] = rng.sample(range(1, K + 1), rng.randint(1, K))
@@ -202,7 +211,11 @@ def run_case(case):
         s = bt.Strategy("s", children=kids)
         s.temp = {}
     else:
-        s = bt.Strategy("s")
+        declared = case.get("nsub", 0) > 0 or case.get("scope", list(range(1, K + 1))) != list(range(1, K + 1))
+        if declared:
+            s = bt.Strategy("s", children=[names[i - 1] for i in case["scope"]] + [bt.Strategy("sub%d" % j) for j in range(case["nsub"])])
+        else:
+            s = bt.Strategy("s")
         s.setup(uni, **kw)
         s.update(uni.index[now - 1])
         s.temp = {}
@@ -229,6 +242,7 @@ def run_case(case):
     idx = {n: i + 1 for i, n in enumerate(names)}
     for j in range(4):
         idx["al%d" % j] = K + 1 + j
+        idx["sub%d" % j] = K + 1 + j
     out = {"ret": ret, "hassel": "selected" in s.temp, "sel": [], "hasstat": "stat" in s.temp, "stat": [NAN] * K}
     if out["hassel"]:
         try:
